@@ -1,0 +1,313 @@
+// Verification contracts (comment-only, compiled only with the "verif" build tag; read by /verif/govc).
+
+//go:build verif
+// +build verif
+
+package downloader
+
+// Contracts for queue.go — property C18: "block download delivers every block once, in order, with a matching body".
+
+// c18Done(q, i): slot i of the result window holds a completely fetched block.
+//@ spec func c18Done(q: *queue, i: int) bool = q.resultCache[i] != nil && q.resultCache[i].Pending <= 0
+
+// countProcessableItems: length of the longest complete prefix of the result window.
+//@ func (*queue).countProcessableItems props C18
+//@ panics none
+//@ requires q != nil
+//@ loop rangeindex invariant [range] -1 <= rangeindex && rangeindex < len(q.resultCache) || (rangeindex == -1 && len(q.resultCache) == 0)
+//@ loop rangeindex invariant [prefix] forall k: int :: { q.resultCache[k] } 0 <= k && k <= rangeindex ==> c18Done(q, k)
+//@ loop rangeindex decreases len(q.resultCache) - rangeindex
+//@ modifies nothing
+//@ ensures [range] 0 <= result && result <= len(q.resultCache)
+//@ ensures [prefix-complete] forall k: int :: { q.resultCache[k] } 0 <= k && k < result ==> c18Done(q, k)
+//@ ensures [longest] result < len(q.resultCache) ==> !c18Done(q, result)
+
+// ---------------------------------------------------------------------------------------------------------------------
+// Representation invariant of the result window: a filled slot i holds the header numbered resultOffset + i.
+// `allocated(slot)` (every stored pointer refers to an allocated object) is a tautology of Go's memory model that the engine only knows for
+// ground reads; it is carried in the invariant so that a freshly allocated result record is known to differ from every stored one.
+// The window is a whole `make`d slice (offset 0 in its backing array: newQueue/Reset allocate it, nothing reslices it); stating this
+// keeps index terms free of a symbolic base offset, which the solvers' trigger matching needs for the shifted window.
+//@ spec func c18SlotOK(q: *queue, i: int) bool = allocated(q.resultCache[i]) &&
+//@     (q.resultCache[i] != nil ==> q.resultCache[i].Header != nil && q.resultCache[i].Header.Number != nil &&
+//@         big(q.resultCache[i].Header.Number) == q.resultOffset + i && q.resultCache[i].Hash == c18HashOf(q.resultCache[i].Header))
+//@ spec func c18WF(q: *queue) bool = off(q.resultCache) == 0 && forall i: int :: { q.resultCache[i] } 0 <= i && i < len(q.resultCache) ==> c18SlotOK(q, i)
+// Block numbers in the window fit a signed 64-bit integer (the code computes slot indexes with Int64()).
+//@ spec func c18Bound(q: *queue) bool = q.resultOffset + len(q.resultCache) < 2^63
+
+//@ effectfree github.com/youchainhq/go-youchain/common.Report
+//@ effectfree (*github.com/youchainhq/go-youchain/core/types.Header).Size (*github.com/youchainhq/go-youchain/core/types.Receipt).Size (*github.com/youchainhq/go-youchain/core/types.Transaction).Size
+
+// Results: hands the importer the longest complete prefix of the window (capped by maxResultsProcess), in order,
+// and advances the window by exactly that many block numbers.
+//@ func (*queue).Results props C18
+//@ panics none
+//@ requires q != nil && c18WF(q) && c18Bound(q)
+//@ requires maxResultsProcess >= 0
+//@ loop #1 invariant [count-range] 0 <= nproc && nproc <= len(q.resultCache)
+//@ loop #1 invariant [count-prefix] forall k: int :: { q.resultCache[k] } 0 <= k && k < nproc ==> c18Done(q, k)
+//@ loop #1 invariant [count-longest] nproc < len(q.resultCache) ==> !c18Done(q, nproc)
+//@ loop #2 invariant [idx] -1 <= rangeindex && rangeindex <= 2^63 - 2
+//@ loop #3 invariant [range] len(q.resultCache) - nproc <= i && i <= len(q.resultCache)
+//@ loop #3 invariant [cleared] forall k: int :: { q.resultCache[k] } len(q.resultCache) - nproc <= k && k < i ==> q.resultCache[k] == nil
+//@ loop #3 invariant [kept] forall k: int :: { q.resultCache[k] } 0 <= k && k < len(q.resultCache) - nproc ==> q.resultCache[k] == entry(q.resultCache[k])
+//@ loop #3 invariant [batch-kept] elems(results) == entry(elems(results))
+//@ loop #3 decreases len(q.resultCache) - i
+//@ loop #4 invariant [idx] -1 <= rangeindex && rangeindex <= 2^63 - 2
+//@ loop #5 invariant [idx] -1 <= rangeindex && rangeindex <= 2^63 - 2
+//@ loop #6 invariant [idx] -1 <= rangeindex && rangeindex <= 2^63 - 2
+// Frame: stated as postconditions (the loops havoc whole map / element heaps, so a `modifies` clause cannot be carried through them):
+// no result record is altered, the queue's window slice, mode and task/pending pools are the same objects.
+//@ ensures [records-untouched] forall r: *fetchResult :: { r.Pending } r.Pending == old(r.Pending) && r.Header == old(r.Header) && r.Hash == old(r.Hash) && r.Transactions == old(r.Transactions) && r.Receipts == old(r.Receipts)
+//@ ensures [batch-is-prefix] forall k: int :: { result[k] } 0 <= k && k < len(result) ==> result[k] == old(q.resultCache[k])
+//@ ensures [batch-complete] forall k: int :: { result[k] } 0 <= k && k < len(result) ==> result[k] != nil && result[k].Pending <= 0
+//@ ensures [batch-numbers] forall k: int :: { result[k] } 0 <= k && k < len(result) ==> big(result[k].Header.Number) == old(q.resultOffset) + k
+//@ ensures [batch-bound] len(result) <= maxResultsProcess && len(result) <= len(q.resultCache)
+//@ ensures [batch-maximal] len(result) < maxResultsProcess && len(result) < len(q.resultCache) && (len(result) > 0 || !block || q.closed) ==> !old(c18Done(q, len(result)))
+//@ ensures [offset-advanced] q.resultOffset == old(q.resultOffset) + len(result)
+//@ ensures [window-same] q.resultCache == old(q.resultCache)
+//@ ensures [window-shifted] forall k: int :: { q.resultCache[k] } 0 <= k && k < len(q.resultCache) - len(result) ==> q.resultCache[k] == old(q.resultCache[k + len(result)])
+//@ ensures [window-tail-nil] forall k: int :: { q.resultCache[k] } len(q.resultCache) - len(result) <= k && k < len(q.resultCache) ==> q.resultCache[k] == nil
+//@ ensures [wf] c18WF(q)
+
+// ---------------------------------------------------------------------------------------------------------------------
+// reconstruct closure of DeliverBodies: a body is attached to a result slot only if its transaction root is the header's.
+//@ func (*queue).DeliverBodies$1 props C18
+//@ panics none
+//@ let slot = result
+//@ requires header != nil && slot != nil && 0 <= index && index < len(txLists)
+//@ modifies slot.Transactions
+//@ ensures [accept-iff-root-matches] (result0 == nil) <==> (c18TxRoot(txLists[index]) == header.TxHash)
+//@ ensures [attached-is-delivered] result0 == nil ==> slot.Transactions == txLists[index]
+//@ ensures [attached-root-matches] result0 == nil ==> c18TxRoot(slot.Transactions) == header.TxHash
+//@ ensures [mismatch-untouched] result0 != nil ==> result0 == errInvalidBody && slot.Transactions == old(slot.Transactions)
+
+//@ func (*queue).DeliverReceipts$1 props C18
+//@ panics none
+//@ let slot = result
+//@ requires header != nil && slot != nil && 0 <= index && index < len(receiptList)
+//@ modifies slot.Receipts
+//@ ensures [accept-iff-root-matches] (result0 == nil) <==> (c18ReceiptRoot(receiptList[index]) == header.ReceiptHash)
+//@ ensures [attached-is-delivered] result0 == nil ==> slot.Receipts == receiptList[index]
+//@ ensures [mismatch-untouched] result0 != nil ==> result0 == errInvalidReceipt && slot.Receipts == old(slot.Receipts)
+
+// ---------------------------------------------------------------------------------------------------------------------
+// Prepare: moves the window origin forward at the start of a sync; only legal on an empty window (Reset precedes it).
+//@ spec func c18Empty(q: *queue) bool = forall i: int :: { q.resultCache[i] } 0 <= i && i < len(q.resultCache) ==> q.resultCache[i] == nil
+//@ func (*queue).Prepare props C18
+//@ panics none
+//@ requires q != nil && c18WF(q) && c18Empty(q)
+//@ modifies q.resultOffset, q.mode
+//@ ensures [origin] q.resultOffset == max(old(q.resultOffset), offset)
+//@ ensures [origin-monotone] q.resultOffset >= old(q.resultOffset)
+//@ ensures [mode] q.mode == mode
+//@ ensures [wf] c18WF(q) && c18Empty(q)
+
+// ---------------------------------------------------------------------------------------------------------------------
+// Schedule: headers enter the task pool only in ascending, gap-free, parent-linked order starting at `from`.
+//@ func (*queue).Schedule props C18
+//@ panics none
+//@ requires q != nil && q.blockTaskQueue != nil && q.receiptTaskQueue != nil && q.blockTaskPool != nil && q.receiptTaskPool != nil
+//@ requires c18HeaderQueues[q.blockTaskQueue] && c18HeaderQueues[q.receiptTaskQueue]
+// (absolute positions p in the backing array: a trigger without index arithmetic)
+//@ requires forall p: int :: { elems(headers)[p] } off(headers) <= p && p < off(headers) + len(headers) ==> elems(headers)[p] != nil
+//@ requires from + len(headers) < 2^64
+//@ loop rangeindex invariant [idx] -1 <= rangeindex && rangeindex < len(headers) || (rangeindex == -1 && len(headers) == 0)
+//@ loop rangeindex invariant [from] from == old(from) + len(inserts) && len(inserts) <= rangeindex + 1
+//@ loop rangeindex invariant [sep] base(inserts) != base(headers) && base(inserts) != 0 && off(inserts) == 0
+//@ loop rangeindex invariant [headers-kept] elems(headers) == old(elems(headers))
+// (q.headerHead and Header.ParentHash live in the same byte-array heap, which the loop havocs as a whole)
+//@ loop rangeindex invariant [parents-kept] forall h: *types.Header :: { h.ParentHash } h.ParentHash == old(h.ParentHash)
+//@ loop rangeindex invariant [non-nil] forall k: int :: { inserts[k] } 0 <= k && k < len(inserts) ==> inserts[k] != nil && inserts[k].Number != nil
+//@ loop rangeindex invariant [contiguous] forall k: int :: { inserts[k] } 0 <= k && k < len(inserts) ==> big(inserts[k].Number) == old(from) + k
+//@ loop rangeindex invariant [linked] forall k: int :: { inserts[k] } 0 < k && k < len(inserts) ==> inserts[k].ParentHash == c18HashOf(inserts[k - 1])
+//@ loop rangeindex invariant [first-linked] len(inserts) > 0 ==> inserts[0].ParentHash == old(q.headerHead) || c18IsZeroHash(old(q.headerHead))
+//@ loop rangeindex invariant [head] (len(inserts) > 0 ==> q.headerHead == c18HashOf(inserts[len(inserts) - 1]) && !c18IsZeroHash(q.headerHead)) && (len(inserts) == 0 ==> q.headerHead == old(q.headerHead))
+//@ loop rangeindex invariant [pooled] forall k: int :: { inserts[k] } 0 <= k && k < len(inserts) ==> q.blockTaskPool[c18HashOf(inserts[k])] == inserts[k]
+//@ loop rangeindex invariant [queued] forall k: int :: { inserts[k] } 0 <= k && k < len(inserts) ==> c18Pushed[q.blockTaskQueue][box(inserts[k])]
+//@ loop rangeindex decreases len(headers) - rangeindex
+//@ modifies all, c18Pushed, c18PushCount
+//@ ensures [non-nil] forall k: int :: { result[k] } 0 <= k && k < len(result) ==> result[k] != nil && result[k].Number != nil
+// (was a finding on the original tree: Number.Uint64() without IsUint64() accepted 2^64+from; repaired in /repo da65425, see /verif/proposed_fixes/C18/schedule_number_uint64.md)
+//@ ensures [contiguous] forall k: int :: { result[k] } 0 <= k && k < len(result) ==> big(result[k].Number) == from + k
+//@ ensures [linked] forall k: int :: { result[k] } 0 < k && k < len(result) ==> result[k].ParentHash == c18HashOf(result[k - 1])
+//@ ensures [first-linked] len(result) > 0 ==> result[0].ParentHash == old(q.headerHead) || c18IsZeroHash(old(q.headerHead))
+//@ ensures [head] (len(result) > 0 ==> q.headerHead == c18HashOf(result[len(result) - 1])) && (len(result) == 0 ==> q.headerHead == old(q.headerHead))
+//@ ensures [pooled] forall k: int :: { result[k] } 0 <= k && k < len(result) ==> q.blockTaskPool[c18HashOf(result[k])] == result[k]
+//@ ensures [queued] forall k: int :: { result[k] } 0 <= k && k < len(result) ==> c18Pushed[q.blockTaskQueue][box(result[k])]
+//@ ensures [window-untouched] q.resultOffset == old(q.resultOffset) && q.resultCache == old(q.resultCache) && elems(q.resultCache) == old(elems(q.resultCache))
+
+// ---------------------------------------------------------------------------------------------------------------------
+// resultSlots (throttling; its value is not part of C18): no effect on the queue.
+//@ func (*queue).resultSlots props C18
+//@ requires q != nil
+//@ modifies nothing
+
+// Lacks: a read-only lookup in the peer's "lacking" set.
+//@ func (*peerConnection).Lacks props C18
+//@ requires p != nil
+//@ modifies nothing
+
+// c18NumbersFit63: every header number fits int64 (slot indexes are computed with Number.Int64()).
+//@ spec func c18NumbersFit63(q: *queue) bool = forall h: *types.Header :: { h.Number } h.Number != nil ==> 0 <= big(h.Number) && big(h.Number) < 2^63
+
+// reserveHeaders: a result slot is created only inside the window, at index Number - resultOffset, for the popped header; a no-op
+// (empty) part is accounted by one decrement of that slot's Pending.
+//@ func (*queue).reserveHeaders props C18
+//@ panics none
+//@ pureparam isNoop
+//@ requires q != nil && p != nil && taskQueue != nil && c18HeaderQueues[taskQueue] && c18WF(q) && c18Bound(q)
+//@ requires count >= 0 && donePool != nil && pendPool != nil
+//@ loop proc invariant [wf] old(c18NumbersFit63(q)) ==> c18WF(q)
+//@ loop proc invariant [window-same] off(q.resultCache) == 0
+//@ loop proc invariant [skip-items] off(skip) == 0 && forall k: int :: { skip[k] } 0 <= k && k < len(skip) ==> skip[k] != nil && skip[k].Number != nil
+//@ loop rangeindex invariant [idx] -1 <= rangeindex && rangeindex <= 2^63 - 2
+//@ modifies all, c18Pushed, c18PushCount
+//@ ensures [wf] old(c18NumbersFit63(q)) ==> c18WF(q)
+//@ ensures [window-same] q.resultCache == old(q.resultCache) && q.resultOffset == old(q.resultOffset)
+
+// ---------------------------------------------------------------------------------------------------------------------
+// Task conservation when a peer fails (clause 6, set/count level): every header of the abandoned request is pushed back to the
+// task queue (c18Pushed), with exactly one push per header (c18PushCount), and the request leaves the pending pool.
+// c18ReqOK: a request as built by reserveHeaders — Headers is a whole slice of numbered, non-nil headers.
+//@ spec func c18ReqOK(r: *fetchRequest) bool = r != nil && r.Peer != nil && off(r.Headers) == 0 &&
+//@     forall k: int :: { r.Headers[k] } 0 <= k && k < len(r.Headers) ==> r.Headers[k] != nil && r.Headers[k].Number != nil
+
+//@ func (*queue).cancel props C18
+//@ panics none
+//@ requires q != nil && taskQueue != nil && c18ReqOK(request)
+//@ requires c18HeaderQueues[taskQueue] ==> request.From == 0
+//@ loop rangeindex invariant [idx] -1 <= rangeindex && rangeindex < len(request.Headers) || (rangeindex == -1 && len(request.Headers) == 0)
+//@ loop rangeindex invariant [requeued] forall k: int :: { request.Headers[k] } 0 <= k && k <= rangeindex ==> c18Pushed[taskQueue][box(request.Headers[k])]
+//@ loop rangeindex invariant [others-kept] forall x: int :: { c18Pushed[taskQueue][x] } old(c18Pushed)[taskQueue][x] ==> c18Pushed[taskQueue][x]
+//@ loop rangeindex invariant [push-count] c18PushCount == old(c18PushCount) + rangeindex + 1 + (if request.From > 0 then 1 else 0)
+//@ loop rangeindex decreases len(request.Headers) - rangeindex
+//@ modifies c18Pushed, c18PushCount, mapof(pendPool)
+//@ ensures [requeued] forall k: int :: { request.Headers[k] } 0 <= k && k < len(request.Headers) ==> c18Pushed[taskQueue][box(request.Headers[k])]
+//@ ensures [one-push-each] c18PushCount == old(c18PushCount) + len(request.Headers) + (if request.From > 0 then 1 else 0)
+//@ ensures [unpended] !in(request.Peer.id, pendPool)
+//@ ensures [others-still-pending] forall id: string :: { in(id, pendPool) } id != request.Peer.id ==> (in(id, pendPool) <==> old(in(id, pendPool)))
+
+// Revoke (peer dropped): both of the peer's requests are requeued and removed.
+//@ func (*queue).Revoke props C18
+//@ panics none
+//@ requires q != nil && q.blockTaskQueue != nil && q.receiptTaskQueue != nil && c18HeaderQueues[q.blockTaskQueue] && c18HeaderQueues[q.receiptTaskQueue]
+//@ requires q.blockPendPool != q.receiptPendPool
+//@ requires in(peerID, q.blockPendPool) ==> c18ReqOK(q.blockPendPool[peerID])
+//@ requires in(peerID, q.receiptPendPool) ==> c18ReqOK(q.receiptPendPool[peerID])
+//@ let rb = q.blockPendPool[peerID]
+//@ let rr = q.receiptPendPool[peerID]
+//@ let hadb = in(peerID, q.blockPendPool)
+//@ let hadr = in(peerID, q.receiptPendPool)
+//@ loop #1 invariant [idx] -1 <= rangeindex && rangeindex < len(rb.Headers) || (rangeindex == -1 && len(rb.Headers) == 0)
+//@ loop #1 invariant [requeued] forall k: int :: { rb.Headers[k] } 0 <= k && k <= rangeindex ==> c18Pushed[q.blockTaskQueue][box(rb.Headers[k])]
+//@ loop #1 invariant [push-count] c18PushCount == old(c18PushCount) + rangeindex + 1
+//@ loop #1 decreases len(rb.Headers) - rangeindex
+//@ loop #2 invariant [idx] -1 <= rangeindex && rangeindex < len(rr.Headers) || (rangeindex == -1 && len(rr.Headers) == 0)
+//@ loop #2 invariant [requeued] forall k: int :: { rr.Headers[k] } 0 <= k && k <= rangeindex ==> c18Pushed[q.receiptTaskQueue][box(rr.Headers[k])]
+//@ loop #2 invariant [bodies-kept] hadb ==> forall k: int :: { rb.Headers[k] } 0 <= k && k < len(rb.Headers) ==> c18Pushed[q.blockTaskQueue][box(rb.Headers[k])]
+//@ loop #2 invariant [push-count] c18PushCount == old(c18PushCount) + (if hadb then len(rb.Headers) else 0) + rangeindex + 1
+//@ loop #2 decreases len(rr.Headers) - rangeindex
+//@ modifies c18Pushed, c18PushCount, mapof(q.blockPendPool), mapof(q.receiptPendPool)
+//@ ensures [bodies-requeued] hadb ==> forall k: int :: { rb.Headers[k] } 0 <= k && k < len(rb.Headers) ==> c18Pushed[q.blockTaskQueue][box(rb.Headers[k])]
+//@ ensures [receipts-requeued] hadr ==> forall k: int :: { rr.Headers[k] } 0 <= k && k < len(rr.Headers) ==> c18Pushed[q.receiptTaskQueue][box(rr.Headers[k])]
+//@ ensures [one-push-each] c18PushCount == old(c18PushCount) + (if hadb then len(rb.Headers) else 0) + (if hadr then len(rr.Headers) else 0)
+//@ ensures [unpended] !in(peerID, q.blockPendPool) && !in(peerID, q.receiptPendPool)
+
+// ---------------------------------------------------------------------------------------------------------------------
+// deliver: the generic delivery path. `reconstruct` is the caller's verifier/attacher (DeliverBodies$1 / DeliverReceipts$1);
+// its interface contract is what deliver relies on. The two closures' own contracts (above) refine it: same parameters,
+// precondition `index < len(list)` guaranteed by deliver's [index-below-results] assertion and the `results == len(list)` argument.
+//@ func dynamic:reconstruct props C18
+//@ trusted
+//@ requires arg0 != nil && arg2 != nil && 0 <= arg1
+//@ modifies arg2.Transactions, arg2.Receipts
+
+// MarkLacking only touches the peer's "lacking" set (eviction loop + insert).
+//@ func (*peerConnection).MarkLacking props C18
+//@ trusted
+//@ requires p != nil
+//@ modifies mapof(p.lacking)
+
+// Ghost counters: successful verifications by `reconstruct` and decrements of a slot's Pending, inside deliver.
+//@ ghost var c18Verified: int
+//@ ghost var c18Decremented: int
+
+//@ func (*queue).deliver props C18
+//@ panics none
+//@ requires q != nil && taskQueue != nil && c18HeaderQueues[taskQueue] && pendPool != nil && donePool != nil && c18WF(q) && c18Bound(q)
+//@ requires in(id, pendPool) && pendPool[id] != nil ==> c18ReqOK(pendPool[id])
+//@ requires c18Verified == c18Decremented
+//@ let request = pendPool[id]
+//@ ghost after call dynamic:you/downloader.reconstruct: c18Verified := c18Verified + (if ret == nil then 1 else 0)
+//@ ghost after store Pending#1: c18Decremented := c18Decremented + 1
+//@ assert before call dynamic:you/downloader.reconstruct: [index-below-results] 0 <= a1 && a1 < results
+//@ assert before call dynamic:you/downloader.reconstruct: [slot-of-header] a2 != nil && a2.Header != nil && big(a2.Header.Number) == q.resultOffset + index && 0 <= index && index < len(q.resultCache) && a2 == q.resultCache[index]
+//@ assert before call dynamic:you/downloader.reconstruct: [slot-by-number] old(c18NumbersFit63(q)) ==> big(a0.Number) == q.resultOffset + index && big(a2.Header.Number) == big(a0.Number)
+//@ assert before call dynamic:you/downloader.reconstruct: [pending-only-after-verification] c18Decremented == c18Verified
+//@ loop #1 invariant [idx] -1 <= rangeindex && rangeindex <= 2^63 - 2
+//@ loop #1 invariant [ghosts-kept] c18Verified == old(c18Verified) && c18Decremented == old(c18Decremented) && c18PushCount == old(c18PushCount) && c18Pushed == old(c18Pushed)
+//@ loop #2 invariant [idx] -1 <= rangeindex && rangeindex < len(request.Headers) || (rangeindex == -1 && len(request.Headers) == 0)
+//@ loop #2 invariant [wf] c18WF(q)
+//@ loop #2 invariant [accepted] accepted == rangeindex + 1 && c18Verified == old(c18Verified) + accepted && c18Decremented == c18Verified
+//@ loop #2 invariant [taken] forall k: int :: { request.Headers[k] } 0 <= k && k <= rangeindex ==> request.Headers[k] == nil
+//@ loop #2 invariant [left] forall k: int :: { request.Headers[k] } rangeindex < k && k < len(request.Headers) ==> request.Headers[k] == old(request.Headers[k])
+//@ loop #2 invariant [req-same] request.Headers == old(request.Headers) && c18PushCount == old(c18PushCount)
+//@ loop #2 decreases len(request.Headers) - rangeindex
+//@ loop #3 invariant [idx] -1 <= rangeindex && rangeindex < len(request.Headers) || (rangeindex == -1 && len(request.Headers) == 0)
+//@ loop #3 invariant [requeued] forall k: int :: { request.Headers[k] } 0 <= k && k <= rangeindex && request.Headers[k] != nil ==> c18Pushed[taskQueue][box(request.Headers[k])]
+//@ loop #3 invariant [push-count] c18PushCount == old(c18PushCount) + max(0, rangeindex + 1 - accepted)
+//@ loop #3 invariant [ghosts-kept] c18Verified == entry(c18Verified) && c18Decremented == entry(c18Decremented)
+//@ loop #3 decreases len(request.Headers) - rangeindex
+//@ modifies all, c18Pushed, c18PushCount, c18Verified, c18Decremented
+//@ ensures [not-requested] old(!in(id, pendPool) || pendPool[id] == nil) ==> result0 == 0 && result1 == errNoFetchesPending
+//@ ensures [wf] c18WF(q)
+//@ ensures [window-same] q.resultCache == old(q.resultCache) && q.resultOffset == old(q.resultOffset)
+//@ ensures [accepted-verified] result0 == c18Verified - old(c18Verified) && c18Decremented == c18Verified
+//@ ensures [unpended] request != nil ==> !in(id, pendPool)
+//@ ensures [rest-requeued] request != nil ==> forall k: int :: { request.Headers[k] } 0 <= k && k < len(request.Headers) && request.Headers[k] != nil ==> c18Pushed[taskQueue][box(request.Headers[k])]
+//@ ensures [accepted-taken] request != nil ==> forall k: int :: { request.Headers[k] } 0 <= k && k < len(request.Headers) ==> ((request.Headers[k] == nil) <==> k < result0)
+//@ ensures [one-push-each] request != nil ==> c18PushCount == old(c18PushCount) + len(request.Headers) - result0
+
+// DeliverBodies / DeliverReceipts: instantiate deliver with the body / receipt pools and the matching verifier; `results` is the
+// length of the delivered list, which is what makes deliver's [index-below-results] the closures' `index < len(list)`.
+//@ func (*queue).DeliverBodies props C18
+//@ panics none
+//@ requires q != nil && q.blockTaskQueue != nil && c18HeaderQueues[q.blockTaskQueue] && q.blockPendPool != nil && q.blockDonePool != nil && c18WF(q) && c18Bound(q)
+//@ requires in(id, q.blockPendPool) && q.blockPendPool[id] != nil ==> c18ReqOK(q.blockPendPool[id])
+//@ requires c18Verified == c18Decremented
+//@ assert before call (*queue).deliver: [results-is-list-length] a7 == len(txLists) && a2 == q.blockTaskPool && a3 == q.blockTaskQueue && a4 == q.blockPendPool && a5 == q.blockDonePool
+//@ modifies all, c18Pushed, c18PushCount, c18Verified, c18Decremented
+//@ ensures [wf] c18WF(q)
+//@ ensures [window-same] q.resultCache == old(q.resultCache) && q.resultOffset == old(q.resultOffset)
+//@ ensures [accepted-verified] result0 == c18Verified - old(c18Verified) && c18Decremented == c18Verified
+
+//@ func (*queue).DeliverReceipts props C18
+//@ panics none
+//@ requires q != nil && q.receiptTaskQueue != nil && c18HeaderQueues[q.receiptTaskQueue] && q.receiptPendPool != nil && q.receiptDonePool != nil && c18WF(q) && c18Bound(q)
+//@ requires in(id, q.receiptPendPool) && q.receiptPendPool[id] != nil ==> c18ReqOK(q.receiptPendPool[id])
+//@ requires c18Verified == c18Decremented
+//@ assert before call (*queue).deliver: [results-is-list-length] a7 == len(receiptList) && a2 == q.receiptTaskPool && a3 == q.receiptTaskQueue && a4 == q.receiptPendPool && a5 == q.receiptDonePool
+//@ modifies all, c18Pushed, c18PushCount, c18Verified, c18Decremented
+//@ ensures [wf] c18WF(q)
+//@ ensures [window-same] q.resultCache == old(q.resultCache) && q.resultOffset == old(q.resultOffset)
+//@ ensures [accepted-verified] result0 == c18Verified - old(c18Verified) && c18Decremented == c18Verified
+
+// expire: nothing is lost — every request that was pending is afterwards either still pending (unchanged) or all its headers are
+// back in the task queue. (Which requests expire depends on the wall clock and is not decided.)
+//@ effectfree time.Since
+//@ spec func c18Requeued(r: *fetchRequest, tq: *prque.Prque) bool = forall k: int :: { r.Headers[k] } 0 <= k && k < len(r.Headers) ==> c18Pushed[tq][box(r.Headers[k])]
+//@ func (*queue).expire props C18
+//@ panics none
+//@ requires q != nil && taskQueue != nil && pendPool != nil
+//@ requires forall id: string :: { mapdom(pendPool)[id] } in(id, pendPool) ==> c18ReqOK(pendPool[id]) && (c18HeaderQueues[taskQueue] ==> pendPool[id].From == 0)
+//@ loop #1 invariant [reqs-ok] forall id: string :: { mapdom(pendPool)[id] } in(id, pendPool) ==> old(in(id, pendPool)) && pendPool[id] == old(pendPool[id])
+//@ loop #1 invariant [nothing-lost] forall id: string :: { old(mapdom(pendPool)[id]) } old(in(id, pendPool)) ==> in(id, pendPool) || c18Requeued(old(pendPool[id]), taskQueue)
+//@ loop #1 invariant [pushed-monotone] forall x: int :: { c18Pushed[taskQueue][x] } entry(c18Pushed)[taskQueue][x] ==> c18Pushed[taskQueue][x]
+//@ loop #2 invariant [idx] -1 <= rangeindex && rangeindex < len(request.Headers) || (rangeindex == -1 && len(request.Headers) == 0)
+//@ loop #2 invariant [requeued] forall k: int :: { request.Headers[k] } 0 <= k && k <= rangeindex ==> c18Pushed[taskQueue][box(request.Headers[k])]
+//@ loop #2 invariant [pushed-monotone] forall x: int :: { c18Pushed[taskQueue][x] } entry(c18Pushed)[taskQueue][x] ==> c18Pushed[taskQueue][x]
+//@ loop #2 decreases len(request.Headers) - rangeindex
+//@ modifies all, c18Pushed, c18PushCount
+//@ ensures [nothing-lost] forall id: string :: { old(mapdom(pendPool)[id]) } old(in(id, pendPool)) ==> in(id, pendPool) || c18Requeued(old(pendPool[id]), taskQueue)
+//@ ensures [pending-unchanged] forall id: string :: { mapdom(pendPool)[id] } in(id, pendPool) ==> old(in(id, pendPool)) && pendPool[id] == old(pendPool[id])
